@@ -65,6 +65,10 @@ fn main() {
                     // every quick configuration is explored deeper in thorough
                     b.max_classes = b.max_classes.saturating_mul(10);
                     b.max_secs *= 4.0;
+                    // wall-clock ceiling per configuration (SYMX_THOROUGH_CAP_S, default 20 min): the deepest tier
+                    // still has to finish; what the ceiling cuts off is reported as classes_budget_exhausted
+                    let cap: f64 = std::env::var("SYMX_THOROUGH_CAP_S").ok().and_then(|s| s.parse().ok()).unwrap_or(1200.0);
+                    b.max_secs = b.max_secs.min(cap);
                 }
                 let r = e.h.explore(&mut ex, &b, seed);
                 eprintln!(
@@ -95,7 +99,7 @@ fn main() {
             let hid = v["harness"].as_str().unwrap();
             let inputs: Vec<BigInt> = v["inputs"].as_array().unwrap().iter().map(|p| p[1].as_str().unwrap().parse::<BigInt>().unwrap()).collect();
             let mut found = false;
-            for t in [Tier::Thorough] {
+            for t in [Tier::Quick, Tier::Thorough] {
                 for e in configs(prop, t, seed) {
                     if e.h.id() == hid {
                         found = true;
